@@ -68,7 +68,7 @@ Inductive expr :=
 | ENum (k:numkind) (text:str)
 | EVar (name:str) (line col:nat)       (* NAME used as a variable; position of the token *)
 | EReg (text:str)                      (* REGREF *)
-| EIdx (name:str) (e:expr)             (* NAME [ e ] *)
+| EIdx (name:str) (line col:nat) (e:expr)   (* NAME [ e ] *)
 | EPar (name:str)                      (* { NAME } *)
 | EBr (e:expr)
 | ESign (neg:bool) (e:expr)
